@@ -227,6 +227,13 @@ KRY = ["FacShape", "FacFinite", "KrylovAV", "KrylovVV", "KrylovVf", "KrylovBeta"
        "ExpandBasisFailed", "ExpandSeed", "G:CompressH", "G:CompressV", "G:FacBegin", "G:FacStep", "G:FacDone", "G:FacInit", "G:ExpandBasis", "I:KInRange"]
 
 
+# rules of spec/TraceKrylov.tla (direct drive of the factorization classes along TLC-generated call sequences)
+KRY_SEQ = ["G:Init", "G:InitZero", "G:Extend", "G:Noop", "G:Throw", "G:Shift", "DimAdvertised", "InitAccepted", "InitCostsTwoApplications", "InitEvent", "Shapes",
+           "ZeroStartRejected", "RejectedCallChangesNothing", "ExtendAccepted", "OneStepPerColumn", "ClaimedOpsAreTrueOps", "OneApplicationPerColumnPlusRestarts",
+           "ExpandBasisSucceeds", "EmptyRangeReturnsAtOnce", "FromBeyondDimRejected", "CompressHEvent", "CompressVEvent", "CompressTouchesNoOperator",
+           "NoForeignEvents", "KI:*", "MeasuredInFactPhase", "MeasuredInShiftPhase", "Shift*", "EveryCallLogged", "KAbort", "KUnknownRow", "UnknownCall"]
+
+
 IR_NEG = [("MC_IR.tla", "IR_neg_refresh.cfg", 4), ("MC_IR.tla", "IR_neg_resume.cfg", 4)]
 
 
@@ -304,8 +311,16 @@ def check_C07(tier, seed, t0):
     descs += ["cls=greginv;ty=d;fam=nullA;n=%d;nev=2;ncv=7;seed=%d;hist=N,V1,C0,V1,C0;sv1=e1;args0=%d:%d:-10:3;uplo=ll;store=ss;meas=2" % (12 + i, 100 * seed + i, [0, 3, 7][i % 3], [30, 2, 0][i % 3])
               for i in range(n_of(tier, 4, 16))]
     descs += ["cls=gchol;ty=d;fam=nullA;n=%d;nev=2;ncv=7;seed=%d;hist=N,V1,C0;sv1=e1;args0=0:30:-10:3;uplo=ll;store=dd;meas=2" % (12 + i, 200 * seed + i) for i in range(2)]
-    models = [("MC_IR.tla", "IR_quick.cfg" if tier == "quick" else "IR_design.cfg", 8)]
-    return ir_flow("C07", tier, seed, descs, KRY, models, COMMON_ASSUME, t0)
+    models = [("MC_IR.tla", "IR_quick.cfg" if tier == "quick" else "IR_design.cfg", 8), ("MC_Krylov.tla", "Kry_arn.cfg", 4), ("MC_Krylov.tla", "Kry_lan.cfg", 4)]
+    # specification -> code -> specification: TLC enumerates the call sequences of the factorization object (spec/Krylov.tla), the harness
+    # executes each on the real Arnoldi / Lanczos classes, TraceKrylov validates what was recorded against the same operators
+    kdescs, kinfo = P.krylov_descs(random.Random(4100 + seed), tier, types=types_for(tier))
+    for ki in kinfo:
+        log("[gen] Krylov behaviours kind=%d m=%d len=%d: %d states, %d behaviours, %d executed" % (ki["kind"], ki["m"], ki["maxlen"], ki["states"], ki["behaviours"], ki["executed"]))
+    stage = dict(descs=kdescs, trace_module="TraceKrylov.tla", trace_cfg="TraceKrylov.cfg", driver_of=lambda d: "drv_krylov")
+    return ir_flow("C07", tier, seed, descs, KRY + KRY_SEQ, models, COMMON_ASSUME + [
+        "the call sequences executed on the factorization classes are ALL behaviours of spec/Krylov.tla up to the bounds logged under generated_behaviours (sampled where 'executed' < 'behaviours'); each is run on one matrix"],
+        t0, extra_stages=[stage], neg_models=[("MC_Krylov.tla", "Kry_neg.cfg", 2)], extra_cov=dict(generated_behaviours=kinfo))
 
 
 C13_RULES = ["I:WorkBound", "I:KInRange", "I:ShiftInRange", "I:RestartsBounded", "G:ShiftBegin", "G:Shift", "G:NevAdj", "G:CompressH", "G:CompressV",
